@@ -465,6 +465,22 @@ def bounded(tier, seed):
         ev += 1; nt.add((d, cname, size, defo))
         if why:
             viol.append(dict(obligation='C11.bounded.trial[%s]' % d, input=dict(decoder=d, code=cname, size=list(size), deformation=defo), detail=why))
+    # the trials are drawn from the stated channel: sampling contract of the real generate() on deformed, biased models (every deformation of the 2-D codes)
+    from bounded import noise as N
+    from bounded.util import deformation_variants
+    import panqec.codes as Cm
+    for cname, size in (('Toric2DCode', (2, 3)), ('Planar2DCode', (2, 2)), ('RotatedPlanar2DCode', (3, 3)), ('Toric3DCode', (2, 2, 2))):
+        cls = getattr(Cm, cname); code = cls(*size)
+        for defo, kw in deformation_variants(cls):
+            for direction in ((0.05, 0.05, 0.9), (0.1, 0.8, 0.1)):
+                em = PauliErrorModel(*direction, deformation_name=defo, deformation_kwargs=kw or None)
+                try:
+                    why = N.nat_generate(em, code, 0.2, [rnd.random() for _ in range(code.n)])
+                except Exception as e:      # noqa
+                    why = 'raises %s: %s' % (type(e).__name__, str(e)[:150])
+                ev += 1; nt.add(('sampling', cname, size, defo, direction))
+                if why:
+                    viol.append(dict(obligation='C11.bounded.sampling', input=dict(code=cname, size=list(size), noise_deformation=defo, kwargs=kw, direction=list(direction), error_rate=0.2), detail=why))
     calib = [('MatchingDecoder', 'Planar2DCode', (2, 2)), ('BeliefPropagationOSDDecoder', 'Planar2DCode', (2, 2)), ('MatchingDecoder', 'RotatedPlanar2DCode', (2, 2)),
              ('BeliefPropagationOSDDecoder', 'RotatedPlanar2DCode', (2, 2))]
     if tier != 'quick':
@@ -495,6 +511,6 @@ def bounded(tier, seed):
     for v in viol:
         if v['obligation'] not in seen:
             seen.add(v['obligation']); out.append(v)
-    return dict(bound='trial contracts on every decoder x bounded cases (4 seeded trials + run(7) twice + chunks 3+4); exact calibration by 4^n enumeration for n <= 5 (quick) / 8 (thorough); 3 seeded runs repeated in fresh processes',
+    return dict(bound='sampling contract of generate() on every deformation of 4 codes x 2 biased directions; trial contracts on every decoder x bounded cases (4 seeded trials + run(7) twice + chunks 3+4); exact calibration by 4^n enumeration for n <= 5 (quick) / 8 (thorough); 3 seeded runs repeated in fresh processes',
                 evaluations=ev, distinct_nontrivial=len(nt), rule='real run_once / DirectSimulation; success compared with an independent GF(2) row-space membership oracle',
                 samples=samples[:4], violations=out)
